@@ -2091,7 +2091,9 @@ static int32_t parse_XTA(ParserBuilder *aParserBuilder,
     {
         res = -1;
     }
-    ch->parse_end(res != 0);
+    // what a flawless text of this kind leaves on the builder's expression stack
+    int results = (part == S_INVARIANT || part == S_EXPONENTIAL_RATE || part == S_EXPRESSION) ? 1 : -1;
+    ch->parse_end(res != 0, results);
 
     ch = NULL;
     return res;
@@ -2111,7 +2113,7 @@ static int32_t parseProperty(ParserBuilder *aParserBuilder, const std::string& x
 
     ch->parse_begin();
     int res = utap_parse() ? -1 : 0;
-    ch->parse_end(res != 0);
+    ch->parse_end(res != 0, -1);
     return res;
 }
 
